@@ -59,6 +59,16 @@ func govcMakeParas() []govcPara {
 		mk("in-blockquote", "ph", func(w []string) string {
 			return "<blockquote><p>" + j(w[:30]) + " <em>" + j(w[30:40]) + "</em> " + j(w[40:]) + "</p></blockquote>"
 		}),
+		// links told apart only by their target: wiki edit/red links, fragment, mailto, tel, empty and missing href
+		mk("link-mw-editsection", "pm", func(w []string) string {
+			return "<p>" + j(w[:20]) + " <a href=\"/w/index.php?title=Topic&amp;action=edit&amp;section=3\">" + w[20] + "</a> " + j(w[21:]) + "</p>"
+		}),
+		mk("link-mw-redlink", "pn", func(w []string) string {
+			return "<p>" + j(w[:20]) + " <a href=\"/w/index.php?title=Conic_section&amp;action=edit&amp;redlink=1\">" + j(w[20:23]) + "</a> " + j(w[23:40]) + " <a href=\"/w/index.php?section=2&amp;action=edit\">" + w[40] + "</a> " + j(w[41:]) + "</p>"
+		}),
+		mk("link-misc-targets", "po", func(w []string) string {
+			return "<p>" + j(w[:10]) + " <a href=\"#section-2\">" + j(w[10:12]) + "</a> " + j(w[12:20]) + " <a href=\"mailto:editor@example.com?subject=action=edit\">" + j(w[20:22]) + "</a> " + j(w[22:30]) + " <a href=\"tel:+15550100\">" + w[30] + "</a> " + j(w[31:40]) + " <a href=\"\">" + w[40] + "</a> " + j(w[41:50]) + " <a>" + w[50] + "</a> " + j(w[51:]) + "</p>"
+		}),
 	}
 }
 
@@ -238,7 +248,7 @@ func TestGovcParagraphReplay(t *testing.T) {
 		checkParsed(fmt.Sprintf("siblings/long/%d", n), wrap(long.String()))
 		checkParsed(fmt.Sprintf("siblings/short/%d", n), wrap(filler("sa")+short.String()+filler("sb")))
 	}
-	fmt.Printf("GOVC-CASES evaluations=%d distinct_nontrivial=%d rule=%s\n", evals, nontrivial, "12 simple-paragraph shapes (inline children, javascript: anchors, line breaks) x {alone, between paragraphs, after a link list, in a div} + all in one article; 60 unique tokens per paragraph; plus structural extremes: six paragraph shapes (inline children 0-5 levels below the paragraph) at the bottom of chains of 1..1000 wrapper elements (18 depths, every depth from 505 to 516) x 6 wrapper kinds (div, section, span, mixed, ul/li, blockquote); one document with a paragraph at every depth 1..1100; inline nesting 10..600 levels inside the paragraph; paragraphs of 2000 and 10000 words; 500 and 3000 inline children / line breaks in one paragraph; 300 and 2000 sibling paragraphs; the word set of every paragraph is read from the parsed document; non-trivial = a paragraph of the case was kept")
+	fmt.Printf("GOVC-CASES evaluations=%d distinct_nontrivial=%d rule=%s\n", evals, nontrivial, "15 simple-paragraph shapes (inline children, javascript: anchors, wiki edit/red links and other link targets, line breaks) x {alone, between paragraphs, after a link list, in a div} + all in one article; 60 unique tokens per paragraph; plus structural extremes: six paragraph shapes (inline children 0-5 levels below the paragraph) at the bottom of chains of 1..1000 wrapper elements (18 depths, every depth from 505 to 516) x 6 wrapper kinds (div, section, span, mixed, ul/li, blockquote); one document with a paragraph at every depth 1..1100; inline nesting 10..600 levels inside the paragraph; paragraphs of 2000 and 10000 words; 500 and 3000 inline children / line breaks in one paragraph; 300 and 2000 sibling paragraphs; the word set of every paragraph is read from the parsed document; non-trivial = a paragraph of the case was kept")
 }
 
 // govcC03DeepParas returns six simple paragraphs (60 unique tokens each) with inline children zero to five
@@ -766,7 +776,7 @@ func TestGovcExcerptReplay(t *testing.T) {
 			runEmb(fmt.Sprintf("embx/%s+%s", b.name, e.name), []govcBlock{fill[0], b, e.block, fill[1]}, e)
 		}
 	}
-	fmt.Printf("GOVC-CASES evaluations=%d distinct_nontrivial=%d rule=%s\n", evals, nontrivial, fmt.Sprintf("generated articles: every ordered pair of 19 block kinds between plain paragraphs, each kind alone, all kinds together; plus %d table shapes (10 ways of marking up the table: ARIA grid/treegrid/row/gridcell roles, th, thead+tbody+tfoot, caption, summary, none, presentation x 13 cell contents: plain, inline markup, paragraphs, lists, br, rowspan/colspan, hidden span, nested tables in 6 arrangements) x {between paragraphs, alone, two in a row, inside a div with inline text} and 8 of them crossed with every block kind in both orders; plus %d carriers of text in non-visible places (figures: 9 caption kinds none/empty/white space/nbsp/comment/hidden/text/text+link/link only x 5 image markups img alt, img alt+title, picture, linked img, img+aria; images with alt/title in paragraphs, links, divs, list items, table cells; title/aria-label/data-*/cite/datetime/href/value/placeholder attributes on inline, block, table and form elements; meta content, html/body attributes, comments, script/style/template content) x {between, alone, first, last, in a div, section, blockquote, list item, table cell}, figure and image carriers also crossed with every block kind in both orders; unique tokens per block; distinct by construction; Result.Text and text nodes of Result.Node checked; non-trivial = some text was extracted, for table cases: words of the table were extracted (measured: %d table cases emitted a <table> element, %d of them with a nested table), for non-visible text cases: the carrier reached the result (measured: %d cases, in %d of them an attribute of Result.Node still holds the non-visible tokens); plus %d kinds of blocks that become non-text elements but contain words (not yet rendered tweets in 6 markups, rendered tweet / YouTube / YouTube-nocookie / Vimeo / other iframes with fallback text, YouTube and other <object> with fallback content, <video> with source, track and fallback text, alone and in a figure, figures with long captions in 5 shapes, data tables with wordy cells, audio, canvas) x {between, alone, first, last, two in a row, in a div with inline text, section, blockquote, list item, list item with inline text, table cell}, 6 of them crossed with every block kind in both orders; every word at most once per view (text inside an embed placeholder counts for the HTML view), fallback content neither in Result.Text nor outside its media element / placeholder in Result.Node; non-trivial = the element reached the result (its id / URL in Result.Node or its words in the result; measured: %d cases, %d of them with an embed placeholder)", nTab, nCarriers, asTable, asTableNested, attrKept, attrInOutputAttr, nEmb, embKept, embPlaceholder))
+	fmt.Printf("GOVC-CASES evaluations=%d distinct_nontrivial=%d rule=%s\n", evals, nontrivial, fmt.Sprintf("generated articles: every ordered pair of 19 block kinds between plain paragraphs, each kind alone, all kinds together; plus %d table shapes (10 ways of marking up the table: ARIA grid/treegrid/row/gridcell roles, th, thead+tbody+tfoot, caption, summary, none, presentation x 13 cell contents: plain, inline markup, paragraphs, lists, br, rowspan/colspan, hidden span, nested tables in 6 arrangements) x {between paragraphs, alone, two in a row, inside a div with inline text} and 8 of them crossed with every block kind in both orders; plus %d carriers of text in non-visible places (figures: 9 caption kinds none/empty/white space/nbsp/comment/hidden/text/text+link/link only x 5 image markups img alt, img alt+title, picture, linked img, img+aria; images with alt/title in paragraphs, links, divs, list items, table cells; title/aria-label/data-*/cite/datetime/href/value/placeholder attributes on inline, block, table and form elements; meta content, html/body attributes, comments, script/style/template content) x {between, alone, first, last, in a div, section, blockquote, list item, table cell}, figure and image carriers also crossed with every block kind in both orders; unique tokens per block; distinct by construction; Result.Text and text nodes of Result.Node checked; non-trivial = some text was extracted, for table cases: words of the table were extracted (measured: %d table cases emitted a <table> element, %d of them with a nested table), for non-visible text cases: the carrier reached the result (measured: %d cases, in %d of them an attribute of Result.Node still holds the non-visible tokens); plus %d kinds of blocks that become non-text elements but contain words (not yet rendered tweets in 6 markups, rendered tweet / YouTube / YouTube-nocookie / Vimeo / other iframes with fallback text, YouTube and other <object> with fallback content, <video> with source, track and fallback text, alone and in a figure, figures with long captions in 5 shapes and with credit/source/byline parts inside, beside and before the caption (4 shapes), data tables with wordy cells, audio, canvas) x {between, alone, first, last, two in a row, in a div with inline text, section, blockquote, list item, list item with inline text, table cell}, 6 of them crossed with every block kind in both orders; every word at most once per view (text inside an embed placeholder counts for the HTML view), fallback content neither in Result.Text nor outside its media element / placeholder in Result.Node; non-trivial = the element reached the result (its id / URL in Result.Node or its words in the result; measured: %d cases, %d of them with an embed placeholder)", nTab, nCarriers, asTable, asTableNested, attrKept, attrInOutputAttr, nEmb, embKept, embPlaceholder))
 }
 
 // govcC02Carrier is a block that carries tokens (infix QQH) in non-visible places of the source.
@@ -1173,6 +1183,19 @@ func govcC02Embeds(pfx string) []govcC02Embed {
 	})
 	fig("figure-text-no-figcaption", false, func(img string) string {
 		return "<figure>" + img + "<p>" + v(30) + "</p></figure>"
+	})
+	// captions with marked-up parts (credits, sources, bylines), inside and beside the <figcaption>
+	fig("figure-caption-credit-inside", false, func(img string) string {
+		return "<figure>" + img + "<figcaption>" + v(12) + " <span class=\"credit\">" + v(4) + "</span></figcaption></figure>"
+	})
+	fig("figure-caption-credit-inside-link", false, func(img string) string {
+		return "<figure>" + img + "<figcaption>" + v(10) + " <a href=\"/agency\">" + v(2) + "</a> <span class=\"photo-credit\" itemprop=\"copyrightHolder\">" + v(3) + "</span> <cite class=\"source\">" + v(2) + "</cite></figcaption></figure>"
+	})
+	fig("figure-credit-beside-caption", false, func(img string) string {
+		return "<figure>" + img + "<figcaption>" + v(12) + "</figcaption><span class=\"credit\">" + v(4) + "</span><small class=\"byline\" itemprop=\"author\">" + v(3) + "</small></figure>"
+	})
+	fig("figure-credit-before-caption", false, func(img string) string {
+		return "<figure><div class=\"image-credit\"><span class=\"credit\">" + v(3) + "</span></div>" + img + "<figcaption><p class=\"caption-text\">" + v(12) + "</p><p class=\"credit\" itemprop=\"copyrightHolder\">" + v(4) + "</p></figcaption></figure>"
 	})
 
 	// data tables with wordy cells
